@@ -38,6 +38,12 @@ func collectAreas(context *api.Context, areas b6.Collection[any, b6.Area]) (b6.A
 
 // Return the distance in meters between the given points.
 func distanceMeters(context *api.Context, a b6.Geometry, b b6.Geometry) (float64, error) {
+	if err := requireGeometry("distance-meters", a); err != nil {
+		return 0.0, err
+	}
+	if err := requireGeometry("distance-meters", b); err != nil {
+		return 0.0, err
+	}
 	return b6.AngleToMeters(a.Point().Distance(b.Point())), nil
 }
 
